@@ -84,6 +84,10 @@ type Encoder struct {
 	width  int
 	height int
 
+	// hasAlpha records whether the source has any non-opaque pixel; it is
+	// written as the header's alpha_is_used bit.
+	hasAlpha bool
+
 	// ARGB pixel data (may be transformed in place).
 	argb    []uint32
 	argbOrig []uint32 // original copy for multi-pass
@@ -173,6 +177,7 @@ func Encode(argb []uint32, width, height int, config *EncoderConfig) ([]byte, er
 		enc.argb = make([]uint32, pixelCount)
 	}
 	copy(enc.argb, argb)
+	enc.hasAlpha = argbHasAlpha(enc.argb)
 
 	// Analyze image.
 	enc.analyze()
@@ -220,6 +225,7 @@ func EncodeToWriter(argb []uint32, width, height int, config *EncoderConfig,
 		enc.argb = make([]uint32, pixelCount)
 	}
 	copy(enc.argb, argb)
+	enc.hasAlpha = argbHasAlpha(enc.argb)
 
 	enc.analyze()
 	if config.NearLosslessQuality < 100 {
@@ -249,6 +255,16 @@ func EncodeToWriter(argb []uint32, width, height int, config *EncoderConfig,
 		_, err = w.Write([]byte{0})
 	}
 	return err
+}
+
+// argbHasAlpha reports whether any pixel is not fully opaque.
+func argbHasAlpha(argb []uint32) bool {
+	for _, p := range argb {
+		if p>>24 != 0xff {
+			return true
+		}
+	}
+	return false
 }
 
 // analyze determines which transforms to use and sets encoding parameters.
@@ -501,8 +517,12 @@ func (enc *Encoder) encodeStream() ([]byte, error) {
 	bw.WriteBits(uint32(width-1), VP8LImageSizeBits)
 	// Height - 1 (14 bits).
 	bw.WriteBits(uint32(height-1), VP8LImageSizeBits)
-	// Alpha is used (1 bit).
-	bw.WriteBits(1, 1)
+	// Alpha is used (1 bit): set only if the source has a non-opaque pixel.
+	if enc.hasAlpha {
+		bw.WriteBits(1, 1)
+	} else {
+		bw.WriteBits(0, 1)
+	}
 	// Version (3 bits).
 	bw.WriteBits(VP8LVersion, VP8LVersionBits)
 
